@@ -94,6 +94,7 @@ type executor struct {
 	granLog []string
 	events  []Ev
 	draws   uint64
+	drawPos int
 	seed    uint64
 }
 
@@ -203,23 +204,35 @@ func (x *executor) recOf(v sessions.VerifSessionView) Rec {
 type recorder struct{ x *executor }
 
 func (r recorder) Read(b []byte) (int, error) {
+	// The entropy source delivers the 16 bytes of the i-th ID in chunks whose
+	// size depends on the history's seed (16, 5 or 1 bytes per call): a reader
+	// may legitimately return fewer bytes than asked for.
 	x := r.x
+	chunk := []int{16, 16, 5, 1}[x.seed%4]
+	if len(b) == 0 {
+		return 0, nil
+	}
 	var seed [16]byte
 	binary.LittleEndian.PutUint64(seed[:8], x.seed)
 	binary.LittleEndian.PutUint64(seed[8:], x.draws)
 	h := sha256.Sum256(seed[:])
-	n := copy(b, h[:])
-	for n < len(b) {
-		h = sha256.Sum256(h[:])
-		n += copy(b[n:], h[:])
+	n := len(b)
+	if n > chunk {
+		n = chunk
 	}
-	if len(b) == 16 {
-		id := base64.StdEncoding.EncodeToString(b)
+	if n > 16-x.drawPos {
+		n = 16 - x.drawPos
+	}
+	copy(b[:n], h[x.drawPos:x.drawPos+n])
+	x.drawPos += n
+	if x.drawPos == 16 {
+		id := base64.StdEncoding.EncodeToString(h[:16])
 		x.st.IDs = append(x.st.IDs, id)
 		x.events = append(x.events, Ev{Op: "draw", Key: Key{Gen: true, N: len(x.st.IDs) - 1}, OK: true})
+		x.draws++
+		x.drawPos = 0
 	}
-	x.draws++
-	return len(b), nil
+	return n, nil
 }
 
 // ---- the persistence layer ----
@@ -280,6 +293,7 @@ func (x *executor) thaw() {
 	x.events = x.events[:f.events]
 	x.st.IDs = x.st.IDs[:f.ids]
 	x.draws = uint64(f.ids)
+	x.drawPos = 0
 	x.frozen = nil
 }
 
@@ -972,6 +986,11 @@ func runSegment(in childIn) childOut {
 	name, tmpl := cookieTemplate(h.Tmpl)
 	sessions.SessionCookie = name
 	sessions.NewSessionCookie = func() *http.Cookie { c := tmpl; return &c }
+	if h.Tmpl%5 == 0 {
+		// an application may hand out one shared template object
+		shared := tmpl
+		sessions.NewSessionCookie = func() *http.Cookie { return &shared }
+	}
 	sessions.Persistence = sessions.ExtendablePersistenceLayer{
 		LoadSessionFunc: x.LoadSession, SaveSessionFunc: x.SaveSession, DeleteSessionFunc: x.DeleteSession,
 		UserSessionsFunc: x.UserSessions, LoadUserFunc: x.LoadUser,
